@@ -216,7 +216,14 @@ static Outcome run_rw(const Case &c, int mode) {
   RW g;
   G = &g;
   g.is_write = is_write;
-  g.fd = K().create();
+  {
+    // descriptor number: any non-negative int is a legitimate socket (0 after closing stdin, large numbers in busy servers)
+    int want = -1;
+    for (auto &op : c)
+      if (op.k == "fd" && !op.a.empty()) want = (int)std::min<int64_t>(std::max<int64_t>(op.a[0], 0), 6000);
+    g.fd = want >= 0 ? K().create_at(want) : K().create();
+    if (want >= 0) x.cls.insert(want == 0 ? "descriptor-0" : want < 3 ? "descriptor-1-2" : want >= 1024 ? "descriptor>=1024" : "descriptor-chosen");
+  }
   K().get(g.fd)->conn = 2;
   int kinds = 0;
   size_t nin = 0;
@@ -371,6 +378,119 @@ static rc::Gen<Case> gen_rw(int mode, int tier) {
       if (end == 1) c.push_back(Op("out", {OUT_ERR, 1, 0, *range<int>(0, 4)}));
     }
     if (*range<int>(0, 5) == 0) c.push_back(Op("eintr"));
+    if (*range<int>(0, 3) == 0) c.push_back(Op("fd", {*rc::gen::elementOf(std::vector<int64_t>{0, 0, 1, 2, 3, 7, 39, 255, 256, 1023, 1024, 5000})}));
+    return c;
+  });
+}
+
+// ------------------------------------------------------------------ soak: long histories, many descriptors at once
+// Accumulated state matters too: request cookies come from an object pool that only really releases memory once it has
+// seen thousands of allocations and more objects are outstanding at once than it caches.
+struct SReq {
+  int fd;
+  uint8_t *buf;
+  int cbs = 0;
+  ssize_t n = -2;
+  std::string expect;
+};
+static int soak_cb(void *c, ssize_t n) {
+  SReq *r = (SReq *)c;
+  r->cbs++;
+  r->n = n;
+  return 0;
+}
+static Outcome run_soak(const Case &c) {
+  Outcome o;
+  Ctx x;
+  x.o = &o;
+  X = &x;
+  K().reset();
+  std::vector<int> fds;
+  auto fd_at = [&](size_t i) {
+    while (fds.size() <= i) {
+      int fd = K().create();
+      K().get(fd)->conn = 2;
+      fds.push_back(fd);
+    }
+    return fds[i];
+  };
+  long total = 0, bursts = 0, maxburst = 0;
+  uint64_t seedc = 1;
+  auto one_round = [&](size_t m, bool writes) {
+    std::vector<std::unique_ptr<SReq>> rs;
+    for (size_t i = 0; i < m && !x.failed; i++) {
+      std::unique_ptr<SReq> r(new SReq);
+      r->fd = fd_at(i);
+      size_t len = 1 + (size_t)(seedc % 7);
+      r->expect = prbytes(seedc++, len);
+      r->buf = (uint8_t *)malloc(8);
+      void *ck;
+      if (writes) {
+        memcpy(r->buf, r->expect.data(), len);
+        ck = shim_network_write(r->fd, r->buf, len, len, soak_cb, r.get());
+      } else {
+        InItem it;
+        it.t = IN_DATA;
+        it.data = r->expect;
+        it.delay = (int64_t)(seedc % 3) * 400;
+        K().push_in(r->fd, it);
+        ck = shim_network_read(r->fd, r->buf, 8, len, soak_cb, r.get());
+      }
+      if (!ck) x.fail("request-refused", "network_read/write returned NULL in a long history");
+      rs.push_back(std::move(r));
+    }
+    int rc = run_loop_until([&] {
+      for (auto &r : rs)
+        if (!r->cbs) return false;
+      return true;
+    });
+    if (rc != 0 && !x.failed) x.fail("soak-loop", "requests of a burst did not all complete (rc " + std::to_string(rc) + ")");
+    for (auto &r : rs) {
+      if (!x.failed) {
+        Sock *s = K().get(r->fd);
+        if (r->cbs != 1 || r->n != (ssize_t)r->expect.size())
+          x.fail("soak-result", "request in a long history completed with n=" + std::to_string((long)r->n) + " after " + std::to_string(r->cbs) + " callbacks, expected " + std::to_string(r->expect.size()));
+        else if (!writes && memcmp(r->buf, r->expect.data(), r->expect.size()) != 0)
+          x.fail("soak-bytes", "read in a long history delivered wrong bytes");
+        else if (writes && (s->sent.size() < r->expect.size() || s->sent.compare(s->sent.size() - r->expect.size(), r->expect.size(), r->expect) != 0))
+          x.fail("soak-bytes", "write in a long history handed wrong bytes to the socket");
+      }
+      free(r->buf);
+    }
+    total += (long)m;
+  };
+  for (auto &op : c) {
+    if (x.failed) break;
+    auto A = [&](size_t i) -> int64_t { return i < op.a.size() ? op.a[i] : 0; };
+    bool writes = A(1) & 1;
+    if (op.k == "seq") {
+      long n = (long)std::min<int64_t>(std::max<int64_t>(A(0), 1), 6000);
+      for (long i = 0; i < n && !x.failed && total < 20000; i++) one_round(1, writes);
+    } else if (op.k == "burst") {
+      size_t m = (size_t)std::min<int64_t>(std::max<int64_t>(A(0), 2), 40);
+      one_round(m, writes);
+      bursts++;
+      maxburst = std::max<long>(maxburst, (long)m);
+    }
+  }
+  o.nontrivial = total >= 4400 && maxburst >= 17;
+  if (total >= 4400) o.cls("history>=4400-requests");
+  if (maxburst >= 17) o.cls("burst>=17-outstanding");
+  if (maxburst >= 33) o.cls("burst>=33-outstanding");
+  o.counters["soak_requests"] = (uint64_t)total;
+  X = nullptr;
+  return o;
+}
+static rc::Gen<Case> gen_soak(int tier) {
+  return rc::gen::exec([tier]() {
+    Case c;
+    int phases = *range<int>(2, 5);
+    for (int i = 0; i < phases; i++) {
+      int w = *range<int>(0, 1);
+      c.push_back(Op("seq", {*rc::gen::weightedElement<int64_t>({{1, 50}, {2, 1200}, {3, 4500}, {tier ? 2 : 1, 6000}}), w}));
+      int nb = *range<int>(1, 3);
+      for (int j = 0; j < nb; j++) c.push_back(Op("burst", {*rc::gen::elementOf(std::vector<int64_t>{3, 16, 17, 18, 24, 33, 40}), w}));
+    }
     return c;
   });
 }
@@ -734,9 +854,17 @@ int main(int argc, char **argv) {
          [](int t) { return gen_rw(2, t); }, [](const Case &c) { return run_rw(c, 2); }};
   dx.fork = true;
   dx.timeout_s = 10;
+  Sub sk{"soak",
+         "long histories: phases of up to 6000 sequential 1..7-byte reads or writes followed by bursts of 3..40 requests outstanding at the same time on as many "
+         "descriptors (request cookies are pooled: accumulated allocation statistics decide when the pool really frees one). Oracle: every request completes "
+         "exactly once with exactly its bytes; ASan sees any use of a released cookie. Non-trivial: >= 4400 requests and a burst of >= 17",
+         gen_soak, run_soak};
+  sk.fork = true;
+  sk.timeout_s = 60;
   subs.push_back(r);
   subs.push_back(w);
   subs.push_back(dx);
+  subs.push_back(sk);
   subs.push_back(cn);
   subs.push_back(ac);
   return pbt_main(argc, argv, subs);
